@@ -303,6 +303,7 @@ func c12(c *Ctx) {
 	p, R := c.Node(), c.R
 	R.Trust("go/types + go/ssa", "fmt.Sprintf %d renders unsigned integers in minimal decimal; hex.EncodeToString renders lowercase hex", "badger iteration: Seek+ValidForPrefix visits exactly the keys having the byte prefix")
 	loopVarRule(c, p, "C12.loopvar", pkgDB, pkgPublicRPC)
+	c12noRetain(c, p)
 	R.Assumption("request chain-id enums/ids are defined within 16 bits; their conversion to vaa.ChainID is listed as informational only")
 	bytesFn := must(p.Method(pkgVAA, "VAAID", "Bytes"), "vaa.(*VAAID).Bytes")
 	keyShape, err := methodShape(p, bytesFn)
@@ -562,4 +563,142 @@ func c12rpc(c *Ctx, p *load.Program, idT *types.Named) {
 		}
 	})
 	R.Check("C12.rpc", "C12.rpc/FindMissingMessages/delegates", c.rel(p.Pos(fm.Pos())), "find-missing-messages delegates gap detection to the store", del, "no call to FindEmitterSequenceGap")
+}
+
+// c12noRetain: badger reuses the buffers behind Item.Key() (and the slice handed to the
+// Item.Value callback) as soon as the iterator advances. A slice obtained from them may be read,
+// converted to a string, parsed or copied inside the iteration step, but must not be kept (stored,
+// appended as an element, put in a map, sent, returned, captured): a kept slice is silently
+// overwritten with the bytes of a later key — of another emitter's stream.
+func c12noRetain(c *Ctx, p *load.Program) {
+	R := c.R
+	n := 0
+	var escapes func(v ssa.Value, depth int) string
+	escapes = func(v ssa.Value, depth int) string {
+		if v.Referrers() == nil || depth > 6 {
+			return ""
+		}
+		for _, r := range *v.Referrers() {
+			switch x := r.(type) {
+			case *ssa.Convert:
+				// string(key) copies
+			case *ssa.Slice:
+				if w := escapes(x, depth+1); w != "" {
+					return w
+				}
+			case *ssa.ChangeType:
+				if w := escapes(x, depth+1); w != "" {
+					return w
+				}
+			case *ssa.Phi:
+				if w := escapes(x, depth+1); w != "" {
+					return w
+				}
+			case *ssa.Store:
+				if x.Val != v {
+					continue
+				}
+				// a local variable (possibly shared with the synchronous Value callback): follow
+				// its loads
+				if al, ok := x.Addr.(*ssa.Alloc); ok && al.Referrers() != nil {
+					for _, ar := range *al.Referrers() {
+						switch y := ar.(type) {
+						case *ssa.UnOp:
+							if w := escapes(y, depth+1); w != "" {
+								return w
+							}
+						case *ssa.MakeClosure:
+							fn := y.Fn.(*ssa.Function)
+							for k, b := range y.Bindings {
+								if b != ssa.Value(al) || k >= len(fn.FreeVars) || fn.FreeVars[k].Referrers() == nil {
+									continue
+								}
+								for _, fr := range *fn.FreeVars[k].Referrers() {
+									if ld, ok := fr.(*ssa.UnOp); ok {
+										if w := escapes(ld, depth+1); w != "" {
+											return w
+										}
+									}
+								}
+							}
+						}
+					}
+					continue
+				}
+				// argument list of a variadic call: formatting/logging copies, append keeps
+				if ia, ok := x.Addr.(*ssa.IndexAddr); ok {
+					if al, ok := ia.X.(*ssa.Alloc); ok && al.Comment == "varargs" && al.Referrers() != nil {
+						kept := ""
+						for _, ar := range *al.Referrers() {
+							if sl, ok := ar.(*ssa.Slice); ok && sl.Referrers() != nil {
+								for _, sr := range *sl.Referrers() {
+									if call, ok := sr.(ssa.CallInstruction); ok {
+										cn := facts.CalleeName(call.Common())
+										if !(strings.HasPrefix(cn, "fmt.") || strings.HasPrefix(cn, "go.uber.org/zap") || strings.HasPrefix(cn, "log.")) {
+											kept = "kept by " + cn
+										}
+									}
+								}
+							}
+						}
+						if kept != "" {
+							return kept
+						}
+						continue
+					}
+				}
+				return "stored into " + facts.Term(x.Addr)
+			case *ssa.MapUpdate:
+				if x.Value == v || x.Key == v {
+					return "kept in map " + facts.Term(x.Map)
+				}
+			case *ssa.Send:
+				if x.X == v {
+					return "sent on a channel"
+				}
+			case *ssa.Return:
+				return "returned"
+			case *ssa.MakeClosure:
+				return "captured by a closure"
+			case *ssa.MakeInterface:
+				if w := escapes(x, depth+1); w != "" {
+					return w
+				}
+			}
+		}
+		return ""
+	}
+	for _, f := range p.SrcFuncs(pkgDB) {
+		eachInstr(f, func(i ssa.Instruction) {
+			cl, ok := i.(*ssa.Call)
+			if !ok {
+				return
+			}
+			name := facts.CalleeName(&cl.Call)
+			if !strings.HasSuffix(name, "badger/v3.Item).Key") && !strings.HasSuffix(name, "badger.Item).Key") {
+				return
+			}
+			n++
+			why := escapes(cl, 0)
+			R.Check("C12.no-retain", R.Key("C12.no-retain", shortFn(f), "item.Key"), c.rel(p.Pos(cl.Pos())), "the slice returned by badger's Item.Key() is not kept beyond the iteration step (KeyCopy is the keeping form)", why == "",
+				why+": the iterator reuses that buffer, so the kept key is later overwritten by a key of another stream and the result mixes streams")
+		})
+		// the slice passed to an Item.Value callback
+		if f.Parent() != nil && len(f.Params) == 1 {
+			used := false
+			if refs := f.Referrers(); refs != nil {
+				for _, r := range *refs {
+					if call, ok := r.(*ssa.Call); ok && strings.HasSuffix(facts.CalleeName(&call.Call), "Item).Value") {
+						used = true
+					}
+				}
+			}
+			if used {
+				n++
+				why := escapes(f.Params[0], 0)
+				R.Check("C12.no-retain", R.Key("C12.no-retain", shortFn(f), "item.Value"), c.rel(p.Pos(f.Pos())), "the slice handed to an Item.Value callback is not kept beyond the callback (ValueCopy is the keeping form)", why == "", why)
+			}
+		}
+	}
+	R.Floor("C12.no-retain", n, 1)
 }
